@@ -109,6 +109,21 @@ pub fn check_cli(dict: &[WR], tag: &str) -> Option<(String, String)> {
             let got = ModelSpec::from_bytes(&out).map(|x| x.0.dict_model);
             return Err(("cli-not-lossless".into(), format!("dump + replace changed the model: dictionary in {:?} out {:?}", dict, got)));
         }
+        // the dump with CR LF record terminators (what a spreadsheet or a Windows editor saves), for dictionaries whose
+        // fields contain no line break themselves: the same model must come back
+        if dict.iter().all(|d| !d.word.contains(['\r', '\n']) && !d.comment.contains(['\r', '\n'])) {
+            let text = std::fs::read_to_string(&csv).map_err(|e| ("cli-dump-unreadable".to_string(), e.to_string()))?;
+            let (csv_crlf, mout_crlf) = (format!("{dir}/dict-crlf.csv"), format!("{dir}/out-crlf.zst"));
+            std::fs::write(&csv_crlf, text.replace("\r\n", "\n").replace('\n', "\r\n")).map_err(|e| ("cli-scratch".to_string(), e.to_string()))?;
+            let (rc, err) = run_tool(&["--model-in", &min, "--replace-dict", &csv_crlf, "--model-out", &mout_crlf]).unwrap_or_else(|e| machinery_error(&e));
+            if rc != 0 {
+                return Err(("cli-crlf-replace-failed".into(), format!("--replace-dict with the dump saved with CR LF line ends exited with {rc}: {err}")));
+            }
+            let out = std::fs::read(&mout_crlf).ok().and_then(|z| zstd::decode_all(&z[..]).ok());
+            if out.as_deref() != Some(&bytes[..]) {
+                return Err(("cli-crlf-not-lossless".into(), "the dump saved with CR LF line ends gives a different model".into()));
+            }
+        }
         // both options in ONE invocation (dump happens first, then the replacement) and neither option
         // (plain re-encode): same dump, same model
         {
